@@ -28,6 +28,7 @@ var noopPrefixes = []string{
 	"(*github.com/grailbio/bigslice/internal/trace.",
 	"(*github.com/grailbio/base/limiter.Limiter).Release",
 	"os/signal.",
+	"encoding/gob.Register",
 }
 
 func (i *interpreter) intercept(fr *frame, fn *ssa.Function, args []value) (value, bool) {
@@ -141,8 +142,7 @@ func (i *interpreter) zzCall(fr *frame, fn *ssa.Function, args []value) value {
 			panic(killPath{"empty AnyIntIn range"})
 		}
 		s := px.fresh(strArg(args[0]), kBV, 64)
-		px.assertTerm("(and (bvsle " + bvLit(uint64(lo), 64) + " " + s.t + ") (bvsle " + s.t + " " + bvLit(uint64(hi), 64) + "))")
-		return int(px.choose(s, lo, hi, true, strArg(args[0])))
+		return int(px.chooseFresh(s, lo, hi))
 	case "Assume":
 		switch c := args[0].(type) {
 		case bool:
@@ -306,6 +306,17 @@ func init() {
 		"(time.Time).Sub":   func(fr *frame, a []value) value { return int64(0) },
 		"(time.Time).After": func(fr *frame, a []value) value { return false },
 
+		"internal/reflectlite.TypeOf": ext۰reflect۰TypeOf,
+		"math.Pow": func(fr *frame, a []value) value { return math.Pow(a[0].(float64), a[1].(float64)) },
+		"time.After": func(fr *frame, a []value) value {
+			return &channel{cap: 1, buf: []value{zero(fr.fn.Signature.Results().At(0).Type().Underlying().(*types.Chan).Elem())}}
+		},
+		"flag.IntVar": intFlagVar, "flag.BoolVar": intFlagVar, "flag.StringVar": intFlagVar, "flag.DurationVar": intFlagVar,
+		"flag.Float64VarX": intFlagVar, "flag.Int64Var": intFlagVar, "flag.UintVar": intFlagVar, "flag.Float64Var": intFlagVar,
+		"flag.Int": intFlagNew, "flag.Bool": intFlagNew, "flag.String": intFlagNew, "flag.Duration": intFlagNew, "flag.Float64": intFlagNew,
+		"flag.Var": func(fr *frame, a []value) value { return nil },
+		"flag.Parse": func(fr *frame, a []value) value { return nil },
+		"flag.Parsed": func(fr *frame, a []value) value { return true },
 		"runtime.Caller": func(fr *frame, a []value) value { return tuple{uintptr(0), "verif.go", 1, true} },
 		"runtime.Callers": func(fr *frame, a []value) value { return 0 },
 		"runtime.NumCPU": func(fr *frame, a []value) value { return 4 },
@@ -821,4 +832,14 @@ func (i *interpreter) pinnedCall(fn *ssa.Function, name string, args []value) (v
 		return int64(parseU(ret)), true
 	}
 	return nil, false
+}
+
+func intFlagVar(fr *frame, a []value) value {
+	*(a[0].(*value)) = a[2]
+	return nil
+}
+
+func intFlagNew(fr *frame, a []value) value {
+	v := a[1]
+	return &v
 }
